@@ -230,7 +230,7 @@ def reproduces(plan, violation, timeout=CHILD_TIMEOUT):
     return False, result
 
 
-FAMILIES = ["tie/", "dur/", "out/", "lost/", "pop/", "partial/", "cleanup/"]
+FAMILIES = ["tie/", "dur/", "out/", "lost/", "pop/", "partial/", "cleanup/", "badsession/"]
 
 
 def minimise(plan, violation, budget_runs=24, wall=90.0):
